@@ -266,6 +266,9 @@ def run(prog, chk):
         err = "the dispatch can run twice without a pop in between"
     elif not cnt or not q.reaches(f, disp[0], cnt[0]) or q.reaches(f, cnt[0], disp[0]) and f.find_path(f.node_pos(cnt[0]), {f.node_pos(disp[0])}, avoid=q.pos_of(f, pops)) is not None:
         err = "_processedJobs is not incremented after the call"
+    elif not all(any(a[0] != "case" and a[1] and fin.key(f, a[0]) == "job.proc" for a in fin.dominating_atoms(f, f.node_pos(c))) for c in cnt):
+        err = ("_processedJobs is also incremented for the null termination ticket, which run() does not count in _pushedJobs: every retired "
+               "worker lowers the computed number of busy threads by one, the pool shrinks to zero workers and stops spawning")
     elif "job.args" not in f.r(disp[0]):
         err = "the job is not called with its own arguments"
     if err:
